@@ -225,9 +225,59 @@ pub fn path_sat(atoms: &[PG], qv: &[T]) -> bool {
     true
 }
 
+thread_local! {
+    /// the universe the oracle enumerates for the program at hand: `universe8` plus ground instances of the sides of
+    /// the program's own (dis)equalities — a disequality that excludes a value OUTSIDE the fixed universe would otherwise
+    /// be invisible to the brute force (seeded change C02-e: a reported constraint silently dropped)
+    static UNIVERSE: std::cell::RefCell<Vec<T>> = std::cell::RefCell::new(vec![]);
+}
+
+pub fn universe_cur() -> Vec<T> {
+    let u = UNIVERSE.with(|u| u.borrow().clone());
+    if u.is_empty() { universe8() } else { u }
+}
+
+fn universe_for(body: &[PG]) -> Vec<T> {
+    let mut u = universe8();
+    let mut sides: Vec<T> = vec![];
+    fn collect(gs: &[PG], sides: &mut Vec<T>) {
+        for g in gs {
+            match g {
+                PG::Neq(a, b) | PG::Eq(a, b) => {
+                    sides.push(a.clone());
+                    sides.push(b.clone());
+                }
+                PG::Conj(v) | PG::Disj(v) => collect(v, sides),
+                PG::Conde(cs) => cs.iter().for_each(|c| collect(c, sides)),
+                PG::Fresh(b) => collect(std::slice::from_ref(b), sides),
+                _ => {}
+            }
+        }
+    }
+    collect(body, &mut sides);
+    let mut extra = 0;
+    for s in sides {
+        if matches!(s, T::Var(_) | T::Any(_)) {
+            continue;
+        }
+        for c in [T::Num(2), T::Num(1), T::Num(3)] {
+            let g = s.subst(&|x| match x {
+                T::Var(_) | T::Any(_) => Some(c.clone()),
+                _ => None,
+            });
+            if !u.contains(&g) && extra < 5 {
+                u.push(g);
+                extra += 1;
+            }
+        }
+    }
+    u
+}
+
 /// all tuples of universe values for the query variables that extend to a solution
 pub fn solutions(p: &Prog) -> Vec<Vec<T>> {
-    let u = universe8();
+    let u = universe_for(&p.body);
+    UNIVERSE.with(|c| *c.borrow_mut() = u.clone());
     let nq = p.nq;
     let ps = paths(&p.body);
     let mut res = vec![];
